@@ -689,6 +689,39 @@ func (f *frame) bindLoopLets(l *loopInfo, st *State, n *node) {
 	}
 }
 
+// bindVariants evaluates the decreases expressions in the state of an arbitrary iteration head (after the
+// invariants were assumed); checkVariants demands at every back edge that each is smaller than it was and
+// was not negative: the loop cannot go round for ever.
+func (f *frame) bindVariants(l *loopInfo, st *State, n *node) {
+	if l.Spec == nil || len(l.Spec.Decreases) == 0 {
+		return
+	}
+	if f.loopVariants == nil {
+		f.loopVariants = map[string][]*Term{}
+	}
+	var vs []*Term
+	for _, d := range l.Spec.Decreases {
+		sc := f.invCtx(l, st, n)
+		vs = append(vs, sc.evalInt(d.Expr))
+	}
+	f.loopVariants[loopLetKey(l, n)] = vs
+}
+
+func (f *frame) checkVariants(l *loopInfo, st *State, n *node) {
+	if l.Spec == nil || len(l.Spec.Decreases) == 0 {
+		return
+	}
+	head := f.loopVariants[loopLetKey(l, n)]
+	for k, d := range l.Spec.Decreases {
+		if k >= len(head) {
+			continue
+		}
+		sc := f.invCtx(l, st, n)
+		now := sc.evalInt(d.Expr)
+		f.x.oblige(fmt.Sprintf("variant#loop%d", l.Ordinal), d.Tags, st.pc, And(Le(Num(0), head[k]), Lt(now, head[k])), firstPos(l.Head), "decreases "+d.Text)
+	}
+}
+
 func (f *frame) checkInvariants(l *loopInfo, st *State, kind string, n *node) {
 	for _, inv := range l.Spec.Invariants {
 		sc := f.invCtx(l, st, n)
